@@ -363,10 +363,10 @@ PreCmpAll(S0, v, w) == Live(S0, v) /\ Live(S0, w)
 VecOps1 == {"Construct", "DefaultConstruct", "Destroy", "Emplace", "PopBack", "Erase", "EraseRange",
             "Clear", "Reserve"}
 VecOps2 == {"CopyConstruct", "CopyAssign", "MoveConstruct", "MoveAssign", "Swap"}
-ElemOps == {"ElemFromRef", "ElemFromRvRef", "ElemCopy", "ElemMove", "ElemCopyAlloc", "ElemMoveAlloc",
+ElemOps == {"ElemFromRef", "ElemFromLvRef", "ElemFromRvRef", "ElemAssignFromLvRef", "ElemCopy", "ElemMove", "ElemCopyAlloc", "ElemMoveAlloc",
             "ElemCopyAssign", "ElemMoveAssign", "ElemSwap", "ElemAssignFromRef", "ElemAssignFromRvRef", "ElemDestroy"}
 CmpOps == {"CmpAll"}
-RefOps == {"RefAssign", "RefMoveAssign", "RefSwap", "IterSwap", "WriteItem", "Rotate", "Reverse", "SwapRanges",
+RefOps == {"RefAssign", "RefAssignLv", "RefMoveAssign", "RefSwap", "IterSwap", "WriteItem", "Rotate", "Reverse", "SwapRanges",
            "IterProbe"}
 ElemOps2 == {"ElemCopy", "ElemMove", "ElemCopyAlloc", "ElemMoveAlloc", "ElemCopyAssign", "ElemMoveAssign", "ElemSwap"}
 
@@ -385,14 +385,14 @@ PreOf(S0, n, v, a) ==
     [] n = "MoveConstruct"    -> PreMoveConstruct(S0, v, a[1])
     [] n = "MoveAssign"       -> PreMoveAssign(S0, v, a[1])
     [] n = "Swap"             -> PreSwap(S0, v, a[1])
-    [] n \in {"ElemFromRef", "ElemFromRvRef"}     -> PreElemFromRef(S0, v, a[1], a[2], a[3])
+    [] n \in {"ElemFromRef", "ElemFromLvRef", "ElemFromRvRef"} -> PreElemFromRef(S0, v, a[1], a[2], a[3])
     [] n \in {"ElemCopy", "ElemMove", "ElemCopyAlloc", "ElemMoveAlloc"} -> PreElemCopy(S0, v, a[1])
     [] n \in {"ElemCopyAssign", "ElemMoveAssign"} -> PreElemAssign(S0, v, a[1])
     [] n = "ElemSwap"         -> PreElemSwap(S0, v, a[1])
-    [] n \in {"ElemAssignFromRef", "ElemAssignFromRvRef"}  -> PreElemAssignFromRef(S0, v, a[1], a[2])
+    [] n \in {"ElemAssignFromRef", "ElemAssignFromLvRef", "ElemAssignFromRvRef"} -> PreElemAssignFromRef(S0, v, a[1], a[2])
     [] n \in {"RefAssignFromElem", "RefAssignFromRvElem"}  -> PreRefAssignFromElem(S0, v, a[1], a[2])
     [] n = "ElemDestroy"      -> PreElemDestroy(S0, v)
-    [] n \in {"RefAssign", "RefMoveAssign", "RefSwap", "IterSwap"} -> PreRef2(S0, v, a[1], a[2], a[3])
+    [] n \in {"RefAssign", "RefAssignLv", "RefMoveAssign", "RefSwap", "IterSwap"} -> PreRef2(S0, v, a[1], a[2], a[3])
     [] n = "WriteItem"        -> PreWriteItem(S0, v, a[1], a[2], a[3], a[4])
     [] n = "Rotate"           -> PreRotate(S0, v, a[1], a[2], a[3])
     [] n = "Reverse"          -> PreReverse(S0, v, a[1], a[2])
@@ -417,7 +417,8 @@ EffOf(S0, n, v, a, par) ==
     [] n = "MoveConstruct"    -> EffMoveConstruct(S0, v, a[1])
     [] n = "MoveAssign"       -> EffMoveAssign(S0, v, a[1], par)
     [] n = "Swap"             -> EffSwap(S0, v, a[1])
-    [] n = "ElemFromRef"      -> EffElemFromRef(S0, v, a[1], a[2], a[3])
+    \* ...LvRef / ...Lv: the source is a NAMED MUTABLE reference (an lvalue): that copies, exactly like a const one
+    [] n \in {"ElemFromRef", "ElemFromLvRef"} -> EffElemFromRef(S0, v, a[1], a[2], a[3])
     [] n = "ElemFromRvRef"    -> EffElemFromRvRef(S0, v, a[1], a[2], a[3])
     [] n = "ElemCopy"         -> EffElemCopy(S0, v, a[1])
     [] n = "ElemMove"         -> EffElemMove(S0, v, a[1])
@@ -426,12 +427,12 @@ EffOf(S0, n, v, a, par) ==
     [] n = "ElemCopyAssign"   -> EffElemCopyAssign(S0, v, a[1])
     [] n = "ElemMoveAssign"   -> EffElemMoveAssign(S0, v, a[1])
     [] n = "ElemSwap"         -> EffElemSwap(S0, v, a[1])
-    [] n = "ElemAssignFromRef"   -> EffElemAssignFromRef(S0, v, a[1], a[2])
+    [] n \in {"ElemAssignFromRef", "ElemAssignFromLvRef"} -> EffElemAssignFromRef(S0, v, a[1], a[2])
     [] n = "ElemAssignFromRvRef" -> EffElemAssignFromRvRef(S0, v, a[1], a[2])
     [] n = "RefAssignFromElem"   -> EffRefAssignFromElem(S0, v, a[1], a[2])
     [] n = "RefAssignFromRvElem" -> EffRefAssignFromRvElem(S0, v, a[1], a[2])
     [] n = "ElemDestroy"      -> EffElemDestroy(S0, v)
-    [] n = "RefAssign"        -> EffRefAssign(S0, v, a[1], a[2], a[3])
+    [] n \in {"RefAssign", "RefAssignLv"} -> EffRefAssign(S0, v, a[1], a[2], a[3])
     [] n = "RefMoveAssign"    -> EffRefMoveAssign(S0, v, a[1], a[2], a[3])
     [] n \in {"RefSwap", "IterSwap"} -> EffRefSwap(S0, v, a[1], a[2], a[3])
     [] n = "WriteItem"        -> EffWriteItem(S0, v, a[1], a[2], a[3], a[4])
@@ -487,6 +488,7 @@ Swap             == \E v \in Vecs, w \in Vecs : Do("Swap", v, <<w>>)
 IdxSpace == 0..(MaxReserve - 1)
 ElemFromRef      == \E x \in Elems, v \in Vecs, i \in IdxSpace : \E al \in AllocChoice(x) :
                        \/ Do("ElemFromRef", x, <<v, i, al>>) \/ Do("ElemFromRvRef", x, <<v, i, al>>)
+                       \/ Do("ElemFromLvRef", x, <<v, i, al>>)
 ElemCopyMove     == \E x \in Elems, y \in Elems :
                        \/ Do("ElemCopy", x, <<y>>) \/ Do("ElemMove", x, <<y>>)
                        \/ \E al \in Allocs : Do("ElemCopyAlloc", x, <<y, al>>) \/ Do("ElemMoveAlloc", x, <<y, al>>)
@@ -494,10 +496,12 @@ ElemAssign       == \E x \in Elems, y \in Elems :
                        \/ Do("ElemCopyAssign", x, <<y>>) \/ Do("ElemMoveAssign", x, <<y>>) \/ Do("ElemSwap", x, <<y>>)
 ElemRefAssign    == \E x \in Elems, v \in Vecs, i \in IdxSpace :
                        \/ Do("ElemAssignFromRef", x, <<v, i>>) \/ Do("ElemAssignFromRvRef", x, <<v, i>>)
+                       \/ Do("ElemAssignFromLvRef", x, <<v, i>>)
                        \/ Do("RefAssignFromElem", v, <<i, x>>) \/ Do("RefAssignFromRvElem", v, <<i, x>>)
 ElemDestroy      == \E x \in Elems : Do("ElemDestroy", x, <<>>)
 RefAssign        == \E v \in Vecs, w \in Vecs, i \in IdxSpace, j \in IdxSpace :
                        \/ Do("RefAssign", v, <<i, w, j>>) \/ Do("RefMoveAssign", v, <<i, w, j>>)
+                       \/ Do("RefAssignLv", v, <<i, w, j>>)
                        \/ Do("RefSwap", v, <<i, w, j>>) \/ Do("IterSwap", v, <<i, w, j>>)
 \* written values: a value that no element holds (241.. are outside Val's range 1..240), one per access path
 WriteItem        == \E v \in Vecs, i \in IdxSpace, k \in Idx :
